@@ -74,3 +74,10 @@ Theorem C20_binary64_bin_count_exact : forall clen b : Z,
   0 <= clen < 2^53 -> 0 < b < 2^53 -> Zceil (fdiv clen b) = cdiv clen b.
 Proof. exact ceil_fdiv_is_cdiv. Qed.
 Print Assumptions C20_binary64_bin_count_exact.
+
+(** the float64 quotient expression of util.binnify that the binary64 theorem above is about is pinned in the source on every run
+    (tools/py2v.py): a reciprocal multiplication or another shortcut is a different computation *)
+From Cooler Require Import Gen.Translated.
+Theorem C20_float_division_source_pins : Gen.float_division_pins_binnify = true.
+Proof. reflexivity. Qed.
+Print Assumptions C20_float_division_source_pins.
